@@ -842,6 +842,7 @@ def check(rep: Report, repo: Optional[Repo] = None) -> None:
     rule_term(rep, repo, cu)
     rule_addr_wrap(rep, cu)
     rule_ffi(rep, repo, cu)
+    rule_per_op_state(rep, all_loops)
     rep.not_decided.append('equality of outputs/termination/op count for all images and inputs (value-level, needs execution)')
     rep.assumptions.append('role tables in fjverif/spec/machine.py name the ip / flip word / jump word / op counter of each loop')
 
@@ -857,3 +858,161 @@ MANIFEST = dict(
                'fjverif/spec/machine.py. Not decided: equality of results for all images/inputs.',
     design_ref='DESIGN.md section 4 C01',
 )
+
+
+# ---------------------------------------------------------------- C01.PER-OP-STATE
+
+def rule_per_op_state(rep: Report, all_loops: List[Any]) -> None:
+    """no stale per-op state: a local that the step assigns must be (re)assigned in the current iteration before it
+    is read; only the documented loop-carried variables survive from one op to the next."""
+    rep.rule('C01.PER-OP-STATE', 'in every run loop, each local that is assigned inside the per-op loop is assigned on every '
+             'path from the loop head before it is read (must-assigned dataflow, reset at the head), except the loop-carried '
+             'ip / op counter / ring counter / signal budget; a read under a non-NULL lane marker is justified by the marker\'s '
+             'own definition site', 4)
+    from ..pycfg import must_dataflow
+    for loop in all_loops:
+        is_c = isinstance(loop, CLoop)
+        g = loop.g
+        head = loop.head()
+        R = loop.roles
+        carried = {R['ip'], R.get('ops', 'ops'), 'ring_writes', 'inner_left', 'cause', 'breakpoint_handler'}
+        assigned_of = c_assigned if is_c else py_assigned
+        mentions_of = c_mentions if is_c else py_mentions
+        in_loop = g.reachable(head) & _reaching(g, head)
+        loop_assigned: Set[str] = set()
+        for nid in in_loop:
+            loop_assigned |= assigned_of(g.nodes[nid])
+        tracked = loop_assigned - carried
+
+        def gen_kill(node: Any, lab: Optional[str]) -> Tuple[Set[str], Any]:
+            if node.id == head:
+                return set(), 'ALL'
+            return set(assigned_of(node)) & tracked, set()
+        IN = must_dataflow(g, head, gen_kill)
+        PC = path_conditions(g, head, assigned_of, mentions_of)
+        bad: List[str] = []
+        checked = 0
+        for nid in sorted(in_loop):
+            node = g.nodes[nid]
+            if nid == head or IN.get(nid) is None:
+                continue
+            reads = _reads(loop, node) & tracked
+            have = IN[nid] or frozenset()
+            for v in sorted(reads):
+                checked += 1
+                if v in have:
+                    continue
+                if _justified_by_marker(loop, g, node, v, IN, PC, assigned_of):
+                    continue
+                bad.append(f'{v} read at {_site(loop, nid)} ({_txt(loop, nid)[:50]}) may hold the previous op\'s value')
+        nm = _name(loop)
+        if checked == 0:
+            raise AnalysisError(f'{nm}: no per-op reads found')
+        if bad:
+            for b in bad[:4]:
+                rep.fail('C01.PER-OP-STATE', f'{nm}:{b.split(" ")[0]}', b, _site(loop, head),
+                         expected='assigned in this iteration before the read')
+        else:
+            rep.ok('C01.PER-OP-STATE', nm, f'{checked} reads of {len(tracked)} per-op locals are all preceded by an assignment in the '
+                   f'same iteration', _site(loop, head))
+
+
+def _reaching(g: Any, head: int) -> Set[int]:
+    """nodes from which the head is reachable (so: nodes on some cycle through the head)."""
+    seen = {head}
+    work = [head]
+    while work:
+        n = work.pop()
+        for p, _ in g.pred[n]:
+            if p not in seen:
+                seen.add(p)
+                work.append(p)
+    return seen
+
+
+def _reads(loop: Any, node: Any) -> Set[str]:
+    a = node.ast
+    if isinstance(loop, CLoop):
+        if not isinstance(a, dict) or node.kind not in ('stmt', 'cond', 'return', 'switch'):
+            return set()
+        out: Set[str] = set()
+
+        def rec(x: Dict[str, Any], store: bool) -> None:
+            k = x.get('kind')
+            if k == 'DeclRefExpr':
+                if not store and x['referencedDecl'].get('kind') == 'VarDecl':
+                    out.add(x['referencedDecl']['name'])
+                return
+            kids = [c for c in x.get('inner', []) if isinstance(c, dict)]
+            if is_assign(x) and len(kids) == 2:
+                l0 = strip(kids[0])
+                rec(kids[0], l0.get('kind') == 'DeclRefExpr')
+                rec(kids[1], False)
+                return
+            if k == 'UnaryOperator' and x.get('opcode') == '&' and kids and strip(kids[0]).get('kind') == 'DeclRefExpr':
+                return          # out-parameter: written, not read
+            for c in kids:
+                rec(c, False)
+        rec(a, False)
+        return out
+    if a is None or not isinstance(a, ast.AST) or node.kind in ('except',):
+        return set()
+    roots: List[ast.AST] = [a]
+    if node.kind == 'with':
+        roots = [i.context_expr for i in a.items]
+    elif node.kind == 'iter':
+        roots = [a.iter]
+    out2: Set[str] = set()
+    for r in roots:
+        for n in ast.walk(r):
+            if isinstance(n, ast.Name) and isinstance(n.ctx, ast.Load):
+                out2.add(n.id)
+    return out2
+
+
+def _justified_by_marker(loop: Any, g: Any, node: Any, v: str, IN: Dict[int, Any], PC: Dict[int, Any], assigned_of: Any) -> bool:
+    """v is read while a lane marker m is known truthy, m itself was assigned in this iteration, and every non-NULL
+    definition of m happens after v was assigned in the same iteration."""
+    if not isinstance(loop, CLoop):
+        return False
+    have = IN.get(node.id) or frozenset()
+    for cid, pol in (PC.get(node.id) or frozenset()):
+        ca = g.nodes[cid].ast
+        if not isinstance(ca, dict):
+            continue
+        ir = c_ir(ca, loop.cu.src_of)
+        cands = []
+        for c in lx.conjuncts(ir):
+            if c[0] == 'sym' and pol == 'T':
+                cands.append(c[1])
+        for m in cands:
+            if m not in have:
+                continue
+            ok = True
+            found = False
+            for dn in g.nodes:
+                if not isinstance(dn.ast, dict) or dn.kind != 'stmt':
+                    continue
+                for x in walk(dn.ast):
+                    if is_assign(x):
+                        l0 = strip(x['inner'][0])
+                        if l0.get('kind') == 'DeclRefExpr' and l0['referencedDecl']['name'] == m \
+                                and loop.cu.src_of(x['inner'][1]) != 'NULL':
+                            found = True
+                            if v in (IN.get(dn.id) or frozenset()) or v in assigned_of(dn):
+                                continue
+                            # or: v is assigned on every path from this definition of the marker to the read
+                            from ..pycfg import must_dataflow
+                            head = loop.head()
+
+                            def gk(nd: Any, lab: Optional[str]) -> Tuple[Set[str], Any]:
+                                if nd.id == head:
+                                    return {'<next-iteration>'}, set()
+                                return set(assigned_of(nd)), set()
+                            sub = must_dataflow(g, dn.id, gk)
+                            facts = sub.get(node.id)
+                            if facts is not None and v not in facts and '<next-iteration>' not in facts:
+                                ok = False
+            if found and ok:
+                return True
+    return False
